@@ -19,6 +19,7 @@ Decides:
  U  usage fallback   an empty line whose items are all satisfied from the environment yields the value: the usage text replaces only a
                   failure (shared with C10).
  M  both absent   the absent exits build Missing(item) or NoEnv(name); both are catchable (defaults apply).
+ R2 count            count() counts a success that consumed nothing (a flag present only through its variable).
 Does not decide: behaviour of the wrappers around an env-backed item (C06)."""
 import re
 from core import *
